@@ -69,7 +69,7 @@ CLAIMS.update({
                 note=NOTE_TB + " Modelled as coded: the free-variable path re-creates a grounding's private neuron from the world default when its instance count changes; bounds written into a quantifier's table from outside are not modelled (known finding partial-quantifier-two-stores)."),
     "C12": dict(text="Theorems C12_sound_instantiation (the proposals of a quantifier's downward step are those of the n-ary unit-weight And/Or inverse over the group of instances; for any instance values inside their bounds whose conjunction/disjunction lies inside the quantifier's bounds every proposal still contains its instance's value: a consistent table keeps its reading, a FALSE Forall does not falsify all instances, a TRUE Exists does not verify all), C12_forall_lower_reaches_instances (axiom Forall makes each instance TRUE), C12_fully_quantified_is_nary. Holds for the tree after fix commit 17358dd.",
                 design="7/C12", technique="Coq proof (reuse of the n-ary downward soundness lemma with unit weights) + exact differential correspondence + hidden ground interpretation monitor",
-                note=NOTE_TB + " Downward through a quantifier whose operand is itself a quantifier is modelled in the scenario interpreter (the proposals go into the inner quantifier's private neurons) and compared exactly; the theorems are about one quantifier level; a downward() on a grounding that never had an upward() raises KeyError in the implementation (observed, reproduced by the model as an error outcome)."),
+                note=NOTE_TB + " Downward through a quantifier whose operand is itself a quantifier is modelled (the proposals go into the inner quantifier's private neurons: theorem C12_nested_push_sound) and compared exactly; a downward() on a grounding that never had an upward() raises KeyError in the implementation (observed, reproduced by the model as an error outcome)."),
 })
 
 CLAIMS.update({
